@@ -21,7 +21,7 @@ ASSUMPTIONS = ["include paths are relative to the including file inside one mapp
 SIZES = {"quick": dict(budget_s=45, batch=100), "thorough": dict(budget_s=600, batch=200)}
 FLOORS = {"nontrivial": 0.5}
 
-BLOCKS = ["blank", "linecomment", "blockcomment", "define1", "defineN", "inactive", "active", "code", "macroline"]
+BLOCKS = ["blank", "linecomment", "blockcomment", "define1", "defineN", "inactive", "active", "code", "macroline", "inactive_str", "macronl", "commentquote", "bsnl"]
 
 
 @st.composite
@@ -35,7 +35,7 @@ def _file_blocks(draw, depth, file_idx, counter):
             counter[0] += 1
             idx = counter[0]
             out.append(["include", idx, draw(_file_blocks(depth - 1, idx, counter))])
-        elif k in ("blank", "linecomment", "code", "active", "inactive", "blockcomment", "defineN"):
+        elif k in ("blank", "linecomment", "code", "active", "inactive", "blockcomment", "defineN", "inactive_str", "macronl"):
             out.append([k, draw(st.integers(1, 4))])
         else:
             out.append([k])
@@ -47,10 +47,11 @@ def _cases(draw):
     counter = [0]
     blocks = draw(_file_blocks(2, 0, counter))
     nfiles = counter[0] + 1
-    fault = draw(st.sampled_from(["runtime", "runtime", "parse", "line", "file", "stack"]))
+    fault = draw(st.sampled_from(["runtime", "runtime", "parse", "line", "file", "stack", "ppwarn"]))
     where = draw(st.integers(0, nfiles - 1))          # file that carries the fault (0 = main)
     after = draw(st.booleans())                        # in main: place the fault after all blocks (i.e. after returning from includes)
-    return dict(blocks=blocks, fault=fault, where=where, indent=draw(st.integers(0, 12)), crlf=draw(st.booleans()), tail=draw(st.integers(0, 2)))
+    return dict(blocks=blocks, fault=fault, where=where, indent=draw(st.integers(0, 12)), crlf=draw(st.booleans()), tail=draw(st.integers(0, 2)),
+                prefix=draw(st.sampled_from(["", "", "", 'pq = "q""q"; ', "pq = 'a''b'; ", "/* c */ "])))
 
 
 def strategy(env):
@@ -117,6 +118,29 @@ def render(case, scratch):
                 lines.append("#endif")
             elif k == "code":
                 lines += ["c%d = [%d, \"s\"];" % (u, j) for j in range(b[1])]
+            elif k == "inactive_str":
+                # a string spanning several lines inside an inactive section
+                labs.add("inactive_section"); labs.add("multiline_string_in_inactive")
+                lines.append("#ifdef NOPE_%d" % u)
+                lines.append('deads%d = "first' % u)
+                lines += ["  middle ZZQ )" for _ in range(b[1] - 1)]
+                lines.append('last";')
+                lines.append("#endif")
+            elif k == "macronl":
+                # a macro call whose argument list spans several lines (the second argument is not used by the body)
+                labs.add("multiline_macro_call")
+                lines.append("#define FA%d(a,b) a" % u)
+                lines.append("fa%d = FA%d(%d," % (u, u, u))
+                lines += [""] * (b[1] - 1)
+                lines.append("2);")
+            elif k == "bsnl":
+                # backslash-newline outside of a directive: joined without a line break (tests/preprocess/backslash pins that output): known finding
+                labs.add("backslash_newline_outside_directive")
+                lines.append("bs%d = 1; \\" % u)
+                lines.append("bt%d = 2;" % u)
+            elif k == "commentquote":
+                lines.append('cq%d = 1; /* c %d */"str";' % (u, u))
+                lines.append("// after")
             elif k == "macroline":
                 lines.append("#define X%d x%d = 1" % (u, u))
                 lines.append("X%d;" % u)
@@ -139,8 +163,10 @@ def render(case, scratch):
 
 
 def _fault_lines(case):
-    ind = " " * case["indent"]
+    ind = " " * case["indent"] + case.get("prefix", "")      # (the prefix puts escaped quotes in front of the fault on its own line)
     f = case["fault"]
+    if f == "ppwarn":
+        return ["#undef ZZNOTDEFINED_MACRO"]          # a directive the preprocessor warns about: the warning names the directive's line
     if f == "runtime":
         return [ind + 'ZZQ + "a";']
     if f == "parse":
@@ -179,14 +205,16 @@ def check(case, env):
     logs = rep.get("logs", [])
     f = case["fault"]
     labs.add("fault_" + f)
+    if case.get("prefix", "").startswith("/*") and f in ("runtime", "parse", "stack"):
+        labs.add("block_comment_before_fault_on_its_line")      # known finding: the stripped comment shifts the column
     if case["where"] != 0:
         labs.add("fault_in_include")
-    nontrivial = bool(labs & {"multiline_block", "multiline_define", "include"})
+    nontrivial = bool(labs & {"multiline_block", "multiline_define", "include", "multiline_string_in_inactive", "multiline_macro_call"})
     if nontrivial:
         labs.add("nontrivial")
     v = None
     src = "\n".join("--- %s\n%s" % (n_, t) for n_, t in sorted(files.items()))
-    mixed = "+".join(sorted(labs & {"multiline_define", "multiline_block", "include", "inactive_section", "crlf", "fault_in_include"}))
+    mixed = "+".join(sorted(labs & {"multiline_define", "multiline_block", "include", "inactive_section", "crlf", "fault_in_include", "multiline_string_in_inactive", "multiline_macro_call", "backslash_newline_outside_directive", "block_comment_before_fault_on_its_line"}))
 
     def bad(kind, msg):
         return viol("%s|%s|%s" % (kind, f, mixed), msg + "\nfiles:\n" + src + "\nlogs: %s" % [(l.get("p"), l.get("ln"), l.get("col"), l["m"][:70]) for l in logs[:5]])
@@ -225,6 +253,16 @@ def check(case, env):
                 v = bad("wrong-line", "parse error reported at %s:%s, the offending token is at %s:%d" % (e.get("p"), e.get("ln"), fpath, line))
             elif e.get("col") != col:
                 v = bad("wrong-column", "parse error reported at column %s, the token is at column %d" % (e.get("col"), col))
+    elif f == "ppwarn":
+        line, _ = _locate(ftext, "#undef ZZNOTDEFINED_MACRO")
+        warns = [l for l in logs if "ZZNOTDEFINED_MACRO" in l["m"]]
+        if not warns:
+            v = bad("no-diagnostic", "no preprocessor warning about the unknown macro")
+        else:
+            m_ = re.match(r"\[L(\d+)\|C(\d+)\|([^\]]*)\]", warns[0]["m"])
+            got = (int(m_.group(1)), m_.group(3)) if m_ else (warns[0].get("ln"), warns[0].get("p"))
+            if got != (line, fpath):
+                v = bad("wrong-line", "the preprocessor warning is reported at %s, the directive is at %s:%d" % (got, fpath, line))
     elif f == "line":
         line, _ = _locate(ftext, "diag_log __LINE__")
         msgs = [l["m"] for l in logs if "[DIAG_LOG]" in l["m"]]
